@@ -79,6 +79,15 @@ def _tailify(stmts, sink):
         if isinstance(st, ast.With) and not rest:
             new = ast.With(items=st.items, body=_tailify(st.body, sink) or [ast.Pass()])
             return out + [ast.copy_location(new, st)]
+        if isinstance(st, ast.Try) and not rest and not st.finalbody:
+            # `try: return f(x)  except E: raise ...`  ->  `try: t = f(x)  except E: raise ...`
+            body = _tailify(st.body, sink) or [ast.Pass()]
+            handlers = [ast.copy_location(ast.ExceptHandler(type=h.type, name=h.name,
+                                                            body=_tailify(h.body, sink) or [ast.Pass()]), h)
+                        for h in st.handlers]
+            orelse = _tailify(st.orelse, sink) if st.orelse else []
+            new = ast.Try(body=body, handlers=handlers, orelse=orelse, finalbody=[])
+            return out + [ast.copy_location(new, st)]
         raise NotTail()
     return out
 
@@ -265,10 +274,107 @@ def _instantiate(h, call, kind, st):
     return pre + out
 
 
+def _expr_body(fn):
+    body = list(fn.body)
+    if body and isinstance(body[0], ast.Expr) and isinstance(body[0].value, ast.Constant) and isinstance(body[0].value.value, str):
+        body = body[1:]
+    if len(body) == 1 and isinstance(body[0], ast.Return) and body[0].value is not None:
+        return body[0].value
+    return None
+
+
+def _expand_expr_helpers(trees, keep):
+    """Helpers that consist of a single `return <expr>` are substituted wherever they are called, also inside
+    conditions and other expressions."""
+    defs = {}
+    for mod, tree in trees.items():
+        for st in tree.body:
+            if isinstance(st, ast.FunctionDef):
+                defs.setdefault(st.name, []).append(_Helper(st, None, mod))
+            elif isinstance(st, ast.ClassDef):
+                for m in st.body:
+                    if isinstance(m, ast.FunctionDef):
+                        defs.setdefault(m.name, []).append(_Helper(m, st, mod))
+    cands = {}
+    for nm, hs in defs.items():
+        if len(hs) == 1 and _is_private(nm) and nm not in keep and _eligible_def(hs[0].node) and \
+                _expr_body(hs[0].node) is not None:
+            cands[nm] = hs[0]
+    if not cands:
+        return []
+    mentions = {nm: 0 for nm in cands}
+    calls = {nm: 0 for nm in cands}
+    for tree in trees.values():
+        for n in ast.walk(tree):
+            if isinstance(n, ast.Attribute) and n.attr in mentions:
+                mentions[n.attr] += 1
+            elif isinstance(n, ast.Name) and n.id in mentions:
+                mentions[n.id] += 1
+            if isinstance(n, ast.Call) and _call_name(n) in calls:
+                calls[_call_name(n)] += 1
+    todo = {nm for nm in cands if calls[nm] > 0 and calls[nm] == mentions[nm]}
+    done = set()
+
+    def instantiate(h, call):
+        params = list(h.params)
+        binding = {}
+        if any(isinstance(a, ast.Starred) for a in call.args) or any(k.arg is None for k in call.keywords):
+            return None
+        if h.is_method:
+            if not isinstance(call.func, ast.Attribute):
+                return None
+            binding[params[0]] = call.func.value
+            params = params[1:]
+        if len(call.args) > len(params):
+            return None
+        for p_, a in zip(params, call.args):
+            binding[p_] = a
+        for k in call.keywords:
+            if k.arg in binding or k.arg not in params + h.kwonly:
+                return None
+            binding[k.arg] = k.value
+        for p_ in params + h.kwonly:
+            if p_ not in binding:
+                if p_ not in h.defaults:
+                    return None
+                binding[p_] = h.defaults[p_]
+        e = copy.deepcopy(_expr_body(h.node))
+
+        class R(ast.NodeTransformer):
+            def visit_Name(self, n):
+                if n.id in binding and isinstance(n.ctx, ast.Load):
+                    return ast.copy_location(copy.deepcopy(binding[n.id]), n)
+                return n
+        return R().visit(e)
+
+    class T(ast.NodeTransformer):
+        def visit_Call(self, n):
+            self.generic_visit(n)
+            nm = _call_name(n)
+            if nm in todo:
+                e = instantiate(cands[nm], n)
+                if e is not None:
+                    done.add(nm)
+                    return ast.copy_location(e, n)
+                failed.add(nm)
+            return n
+    failed = set()
+    for tree in trees.values():
+        T().visit(tree)
+    done -= failed
+    for tree in trees.values():
+        tree.body = [st for st in tree.body if not (isinstance(st, ast.FunctionDef) and st.name in done)]
+        for st in tree.body:
+            if isinstance(st, ast.ClassDef):
+                st.body = [m for m in st.body if not (isinstance(m, ast.FunctionDef) and m.name in done)] or [ast.Pass()]
+        ast.fix_missing_locations(tree)
+    return sorted(done)
+
+
 def expand(trees, keep=frozenset()):
     """trees: {module name: ast.Module}, modified in place.  Returns the sorted list of
     helpers that were inlined (and whose definitions were removed)."""
-    inlined = []
+    inlined = list(_expand_expr_helpers(trees, keep))
     for _ in range(MAXROUNDS):
         # definitions by simple name
         defs = {}
